@@ -712,6 +712,7 @@ impl Engine for SpanEngine {
         let hid = plan["cfg"]["handle_ids"].as_bool().unwrap_or(false);
         let race = plan["cfg"]["race"].as_bool().unwrap_or(false) && sched.sync;
         let steps: Vec<Value> = plan["steps"].as_array().cloned().unwrap_or_default();
+        crate::fw::SPIN_IS_VIOLATION.store(true, Ordering::SeqCst);
         std::panic::set_hook(Box::new(|_| {}));
         let steps2 = steps.clone();
         let body = move || {
